@@ -414,27 +414,3 @@ mod tests {
         }
     }
 }
-
-#[cfg(test)]
-mod tests2 {
-    #[test]
-    fn unreadable_accepted() {
-        use crate::props::strs;
-        let mut seen = std::collections::BTreeMap::new();
-        for p in strs::p30() {
-            let Some(b) = crate::bind::board_of(&p) else { continue };
-            let legal = p.legal();
-            for m in &legal {
-                let t = crate::model::text::san(&p, &legal, *m);
-                strs::edits1(&t, &strs::SIGMA_SAN, &mut |s| {
-                    if owlchess::Move::from_san(s, &b).is_ok() && crate::model::text::read_san(s).is_none() {
-                        *seen.entry(s.to_string()).or_insert(0) += 1;
-                    }
-                });
-            }
-        }
-        let mut v: Vec<_> = seen.into_iter().collect();
-        v.sort_by_key(|x| std::cmp::Reverse(x.1));
-        println!("{} distinct; {:?}", v.len(), &v[..v.len().min(40)]);
-    }
-}
